@@ -117,7 +117,7 @@ func (m member) dials() int {
 }
 
 func admits(kind string, mustSecure bool) bool {
-	return kind == "ok" || (kind == "insecure" && !mustSecure)
+	return kind == "ok" || kind == "ok-tls-otherhost" || (kind == "insecure" && !mustSecure)
 }
 
 func execute(t *testing.T, c Case) (kind, detail string) {
@@ -127,8 +127,12 @@ func execute(t *testing.T, c Case) (kind, detail string) {
 		var releases []func()
 		for _, k := range c.List {
 			switch k {
-			case "ok", "insecure":
+			case "ok", "insecure", "ok-tls-otherhost":
 				o := world.Options{Carrier: "stream", Channels: []string{"x"}, Keep: true}
+				if k == "ok-tls-otherhost" {
+					// a TLS-wrapped carrier for ANOTHER host name, whose certificate is valid for that name
+					o.TLS, o.ServerCert, o.ClientKnowsCA, o.Host = true, "wronghost", true, "other.test"
+				}
 				if c.Overlap > 0 {
 					o.OnDial = func(_, sv *netsim.MemConn) { releases = append(releases, sv.HoldWriteReturn(c.Overlap)) }
 				}
@@ -264,7 +268,8 @@ func execute(t *testing.T, c Case) (kind, detail string) {
 			return
 		}
 		cl := chosen.w.CarrierClientEnd(0)
-		switch c.Loss {
+		gone := strings.HasSuffix(c.Loss, "+gone")
+		switch strings.TrimSuffix(c.Loss, "+gone") {
 		case "cut-idle":
 			cl.Cut(false, true)
 		case "cut-mid-transfer":
@@ -284,6 +289,22 @@ func execute(t *testing.T, c Case) (kind, detail string) {
 		case "5m":
 			bubble.Advance(5 * time.Minute)
 		}
+		if gone {
+			// the upstream that carried the session does not come back: the next admissible one in
+			// the list has to take over
+			chosen.w.Listener.Close()
+			next := -1
+			for i := want + 1; i < len(members); i++ {
+				if admits(members[i].kind, c.MustSecure) {
+					next = i
+					break
+				}
+			}
+			if next < 0 {
+				return
+			}
+			chosen = members[next]
+		}
 		before := chosen.w.Chans[0].NumTargets()
 		na := host.OpenAppVia(ups, "x", nil)
 		bubble.Wait()
@@ -296,7 +317,7 @@ func execute(t *testing.T, c Case) (kind, detail string) {
 			kind, detail = "no-reconnect|"+c.Loss+"|delay="+c.Delay, fmt.Sprintf("after the session was lost (%s) and %s fake delay the next local connection got no working data path: targets %d->%d newapp=%v: %s", c.Loss, c.Delay, before, after, na.Obs(), describe())
 			return
 		}
-		if chosen.dials() != 2 {
+		if !gone && chosen.dials() != 2 {
 			kind, detail = "reconnect-count", fmt.Sprintf("expected exactly one new physical session after the loss, dials=%d", chosen.dials())
 		}
 	})
@@ -330,6 +351,19 @@ func cases(thorough bool) []Case {
 	}
 	rec(nil)
 	var out []Case
+	// upstreams for different hosts and of different security styles in one list: what an earlier
+	// (failed or lost) attempt did must not decide whether a later upstream is acceptable
+	for _, first := range []string{"ok", "stalls-in-starttls", "silent-after-announce", "503", "refuses", "insecure"} {
+		for _, ms := range []bool{false, true} {
+			out = append(out, Case{List: []string{first, "ok-tls-otherhost"}, MustSecure: ms, Concurrent: 1, Loss: "none"})
+			out = append(out, Case{List: []string{"ok-tls-otherhost", first}, MustSecure: ms, Concurrent: 1, Loss: "none"})
+		}
+	}
+	for _, loss := range []string{"cut-idle", "server-close"} {
+		// the first upstream carried the session, is lost and refuses from then on: the second must take over
+		out = append(out, Case{List: []string{"ok", "ok-tls-otherhost"}, MustSecure: true, Concurrent: 1, Loss: loss + "+gone", Delay: "1s"})
+		out = append(out, Case{List: []string{"ok-tls-otherhost", "ok"}, MustSecure: true, Concurrent: 1, Loss: loss + "+gone", Delay: "1s"})
+	}
 	// local connections that arrive while an earlier one is still inside dial + handshake
 	for _, l := range [][]string{{"ok"}, {"refuses", "ok"}, {"insecure"}, {"silent", "ok"}, {"503", "insecure"}} {
 		for _, ms := range []bool{false, true} {
